@@ -156,6 +156,19 @@ def check_un(case):
             if unit != nm or not (abs(got - float(w)) <= 1e-9 * max(1.0, abs(float(w))) + 5e-13):
                 dis.append({"clause": "Convert", "detail": "Length(%r).%s(%s) = %r, expected %s%s" % (s, meth, kw, r, float(w), nm),
                             "rel_err": relerr(got, w), "target": nm})
+    # a percentage of a reference that is itself a percentage is that fraction of it - still a percentage, or an exception,
+    # but not the product of the two amounts
+    if x[1] == "%" and rat(x[0]) != 0:
+        for ref in ("40%", svg.Length("40%")):
+            try:
+                r = svg.Length(s).value(relative_length=ref)
+            except engine.CaseTimeout:
+                raise
+            except Exception:
+                continue
+            want = float(rat(x[0])) * 0.4
+            if not (isinstance(r, svg.Length) and r.units == "%" and abs(r.amount - want) <= 1e-9 * max(1.0, abs(want))):
+                dis.append({"clause": "PercentOfPercent", "detail": "Length(%r).value(relative_length=%r) = %r, %s%% of 40%% is %r%%" % (s, ref, r, float(rat(x[0])), want)})
     # the context-free helpers agree with the CSS ratios (px = 1, pt = 4/3, pc = 16, in = 1 inch)
     amt = rat(x[0])
     try:
